@@ -334,7 +334,12 @@ static void c04_policy_rounds(Buf *b, int rounds) {
     if (c04_getdigest(b, &t, n.P) != 0) return;
     cmd_begin(b, ST_NO_SESSIONS, CC_FlushContext); b_u32(b, t.h); run(b); tr("sflush h=%u", t.h);
     uint8_t platname[4]; be32buf(platname, RH_PLATFORM);
-    tr_begin("ent handle=%u", RH_PLATFORM); trhex("name", platname, 4); trhex("auth", NULL, 0); tr_end();
+    /* the platform hierarchy gets a policy: PolicyCommandCode(ClockRateAdjust) */
+    uint8_t platpol[32]; int have_platpol = 0;
+    { HSess t2; if (c04_start(b, &t2, RH_NULL, "", 3) == 0) { t2.is_policy = 1; c04_pol(b, &t2, CC_PolicyCommandCode, CC_ClockRateAdjust, NULL, 0);
+          if (c04_getdigest(b, &t2, platpol) == 0) { cmd_begin(b, ST_SESSIONS, CC_SetPrimaryPolicy); b_u32(b, RH_PLATFORM); auth_pw(b, "", 0); b_2b(b, platpol, 32); b_u16(b, ALG_SHA256); have_platpol = run(b).rc == 0; }
+          cmd_begin(b, ST_NO_SESSIONS, CC_FlushContext); b_u32(b, t2.h); run(b); tr("sflush h=%u", t2.h); } }
+    tr_begin("ent handle=%u", RH_PLATFORM); trhex("name", platname, 4); trhex("auth", NULL, 0); if (have_platpol) trhex("policy", platpol, 32); tr_end();
     if (c04_start(b, &ps, RH_NULL, "", 1) != 0) return;
     ps.is_policy = 1;
     c04_poldefine(b, &n, &ps);
@@ -342,6 +347,15 @@ static void c04_policy_rounds(Buf *b, int rounds) {
     HSess hs; int have_hs = c04_start(b, &hs, RH_NULL, "", 0) == 0;
     for (int i = 0; i < rounds; i++) {
         if (!n.exists) { c04_poldefine(b, &n, &ps); if (!n.exists) return; }
+        if (have_platpol && chance(12)) {   /* a hierarchy authorized by its policy (SetPrimaryPolicy), by a wrong policy, by its empty password */
+            int dev = chance(60) ? 0 : 1 + rnd(3);
+            c04_pol(b, &ps, CC_PolicyRestart, 0, NULL, 0);
+            if (dev != 1) c04_pol(b, &ps, CC_PolicyCommandCode, dev == 2 ? CC_NV_Read : CC_ClockRateAdjust, NULL, 0);
+            if (dev == 3) c04_pol(b, &ps, CC_PolicyAuthValue, 0, NULL, 0);
+            ASpec as1[1] = { { &ps, ps.needAuth ? M_HMAC_AUTH : M_EMPTY, "" } }; const uint8_t *nm1[1] = { platname }; int nl1[1] = { 4 }; uint32_t hh1[1] = { RH_PLATFORM }; uint8_t p1[1] = {0};
+            int corrupt1 = chance(75) ? K_NONE : 1 + rnd(K_NCOUNT - 1); if (corrupt1 == K_AUTHVAL || corrupt1 == K_HMAC || corrupt1 == K_STALE_NONCE) corrupt1 = K_NONE;   /* nothing keyed to corrupt */
+            c04_send(b, CC_ClockRateAdjust, 1, hh1, nm1, nl1, p1, 1, 1, as1, corrupt1, "pol-hierarchy");
+            continue; }
         int br = chance(8) ? BR_D : chance(25) ? BR_P : rnd(3);
         int dev = chance(55) ? 0 : 1 + rnd(6);
         int corrupt = chance(70) ? K_NONE : 1 + rnd(K_NCOUNT - 1);
@@ -407,13 +421,26 @@ static void scen_c04(int histories, int rounds) {
         tr_begin("ent handle=%u", RH_ENDORSEMENT); trhex("name", endname, 4); trhex("auth", NULL, 0); tr_end();
         tr_begin("ent handle=%u", idx); trhex("name", nvname, nvnl); trhex("auth", (uint8_t *)"nv1", 3); trhex("nv", (uint8_t *)"0123456789abcdef", 16); tr_end();
         if (kh) { tr_begin("ent handle=%u", kh); trhex("name", kname, knl); trhex("auth", (uint8_t *)"k1", 2); tr_end(); }
+        /* the same key as a persistent object, and a PCR as an entity (authValue empty, not subject to DA) */
+        uint32_t pkh = 0;
+        uint8_t pkname[34]; int pknl = 0;
+        { Buf t = {0}; b_u16(&t, ALG_KEYEDHASH); b_u16(&t, ALG_SHA256); b_u32(&t, 0x00040472u); b_u16(&t, 0); b_u16(&t, ALG_HMAC); b_u16(&t, ALG_SHA256); b_u16(&t, 0);
+          cmd_begin(&b, ST_SESSIONS, CC_CreatePrimary); b_u32(&b, RH_OWNER); auth_pw(&b, ownerAuth, 3); b_u16(&b, 4 + 2); b_2b(&b, "k1", 2); b_u16(&b, 0); b_2b(&b, t.p, t.n); b_u16(&b, 0); b_u32(&b, 0);
+          Rsp r = run(&b); b_free(&t);
+          if (r.rc == 0) { uint32_t th = g32(r.p + 10); Rd rd = rsp_params(&r, 1); uint16_t l; r_2b(&rd, &l); r_2b(&rd, &l); r_2b(&rd, &l); r_u16(&rd); r_u32(&rd); r_2b(&rd, &l); const uint8_t *nm = r_2b(&rd, &l);
+              if (!rd.err && l <= 34) { memcpy(pkname, nm, l); pknl = l; }
+              cmd_begin(&b, ST_SESSIONS, CC_EvictControl); b_u32(&b, RH_OWNER); b_u32(&b, th); auth_pw(&b, ownerAuth, 3); b_u32(&b, 0x81000010u);
+              if (run(&b).rc == 0 && pknl) { pkh = 0x81000010u; tr_begin("ent handle=%u", pkh); trhex("name", pkname, pknl); trhex("auth", (uint8_t *)"k1", 2); tr_end(); }
+              cmd_begin(&b, ST_NO_SESSIONS, CC_FlushContext); b_u32(&b, th); run(&b); } }
+        uint8_t pcrname[4]; be32buf(pcrname, 16);
+        tr_begin("ent handle=%u", 16); trhex("name", pcrname, 4); trhex("auth", NULL, 0); tr_end();
         HSess su, sb; int have_su = c04_start(&b, &su, RH_NULL, "", 0) == 0;     /* unbound */
         int have_sb = c04_start(&b, &sb, RH_OWNER, ownerAuth, 0) == 0;          /* bound to owner */
         int sb_bound_valid = 1;
         uint8_t nvdata[16]; memcpy(nvdata, "0123456789abcdef", 16);
         for (int i = 0; i < rounds && have_su && have_sb; i++) {
             int corrupt = chance(45) ? K_NONE : 1 + rnd(K_NCOUNT - 1);
-            switch (rnd(8)) {
+            switch (rnd(10)) {
             case 0: { /* NV_Read with the index authValue through the unbound HMAC session */
                 uint8_t p[4] = {0, 8, 0, (uint8_t)rnd(8)};
                 c04_authcmd(&b, &su, CC_NV_Read, idx, nvname, nvnl, idx, nvname, nvnl, p, 4, "nv1", 0, corrupt, "nvread-unbound"); break; }
@@ -434,6 +461,14 @@ static void scen_c04(int histories, int rounds) {
                 if (!kh) break;
                 uint8_t p[2 + 5 + 2] = {0, 5, 'h', 'e', 'l', 'l', 'o', 0, 0x0B};
                 c04_authcmd(&b, &su, CC_HMAC, kh, kname, knl, 0, NULL, 0, p, 9, "k1", 0, corrupt, "key-hmac"); break; }
+            case 8: { /* the persistent copy of the key */
+                if (!pkh) break;
+                uint8_t p[2 + 5 + 2] = {0, 5, 'w', 'o', 'r', 'l', 'd', 0, 0x0B};
+                c04_authcmd(&b, &su, CC_HMAC, pkh, pkname, pknl, 0, NULL, 0, p, 9, "k1", 0, corrupt, "pkey-hmac"); break; }
+            case 9: { /* a PCR as authorized entity, through the session bound to the owner (its key is the session key alone) */
+                uint8_t p[4 + 2 + 32]; p[0] = 0; p[1] = 0; p[2] = 0; p[3] = 1; p[4] = 0; p[5] = 0x0B; for (int q = 0; q < 32; q++) p[6 + q] = rnd(256);
+                if (corrupt == K_AUTHVAL && sb_bound_valid) corrupt = K_HMAC;
+                c04_authcmd(&b, &sb, CC_PCR_Extend, 16, pcrname, 4, 0, NULL, 0, p, 38, "", 0, corrupt, "pcr-extend"); break; }
             case 5: { /* ownerAuth changes (password session); the bound session is no longer bound to the *current* owner auth */
                 if (chance(85)) break;
                 char na[4]; na[0] = 'o'; na[1] = 'a' + rnd(20); na[2] = '0' + rnd(10); na[3] = 0;
